@@ -136,7 +136,7 @@ FRONT_ASSUME = [
 def _c04(run, drv, rng, tier):
     from . import props_op
     with R.Scratch() as sc:
-        n, k = (14, 4) if tier == "quick" else (400, 8)
+        n, k = (14, 4) if tier == "quick" else (260, 8)
         props_op.check_c04(run, drv, rng, sc, n, k)
 
 
